@@ -32,6 +32,22 @@ def explicit_over_default(key, configured, explicit_values):
                                                  '--- under the factory defaults ---\n%s' % (key, configured, key, ev,
                                                                                            got[:300], base[:300]),
                                        'term': PC.jsonable(c.term), 'cfg': cfg})
+            # ... and the other way round: after the same call was made under the factory defaults, the configured
+            # default is what a call WITHOUT that argument uses
+            for c in sample[:60]:
+                cfg0 = {k: x for k, x in c.cfg.items() if k != key}
+                P.set_default_config(**{key: factory[key]})
+                PC.impl_pformat(c.value, cfg0)
+                P.set_default_config(**{key: configured})
+                got, _w = PC.impl_pformat(c.value, cfg0)
+                want, _w = PC.impl_pformat(c.value, dict(cfg0, **{key: configured}))
+                n += 1
+                if got != want and len(run.violations) < 5:
+                    run.violation({'kind': 'configured-default-not-applied', 'key': key, 'configured_default': configured,
+                                   'detail': 'after the same call under the factory defaults, set_default_config(%s=%r) and a call '
+                                             'without %s print\n%s\n--- with %s=%r spelled out ---\n%s' % (
+                                                 key, configured, key, got[:300], key, configured, want[:300]),
+                                   'term': PC.jsonable(c.term), 'cfg': cfg0})
         finally:
             P.set_default_config(**{key: factory[key]})
         run.count(n)
